@@ -182,6 +182,44 @@ def respOf : Op → Res → Resp
   | .clear, _ => .status "definitions cleared"
   | .deploy, _ => .status "definitions deployed"
 
+/-! ## The TCK endpoint -/
+
+/-- The answer of `POST /tck/evaluate`: `ResultDto::data(OutputNodeDto)` or `ResultDto::error(reason)`
+(`server.rs:282-292`); `O` is the output DTO. -/
+inductive TckResp (O : Type) where
+  | value (o : O)
+  | error (e : Err)
+
+def TckResp.isError {O : Type} : TckResp O → Bool
+  | .error _ => true
+  | _ => false
+
+/-- `do_evaluate_tck` (`server.rs:522-541`) under the read lock: the workspace is not changed.
+`input`: `none` when the request has no `input` member, `some (.error m)` when
+`WrappedValue::try_from(input_values)` / `FeelContext::try_from` failed with the message `m` (the
+DTO conversion of `Dmn/Model/Dto.lean`), `some (.ok i)` the input context.  `evalT` is the deployed
+model evaluator's answer converted by `try_into()` into an `OutputNodeDto`: `.error m` when the
+value has no TCK form.  Messages of conversions are passed through (`Err.input`). -/
+def do_evaluate_tck {I O : Type} (evalT : String → String → I → Except (List Char) O) (s : State)
+    (model invocable : Option String) (input : Option (Except (List Char) I)) : State × TckResp O :=
+  match model with
+  | some model =>
+    match invocable with
+    | some invocable =>
+      match input with
+      | some input =>
+        match input with
+        | .error m => (s, .error (.input m))                       -- `?` on the conversion
+        | .ok i =>
+          if WS.canEvaluate s model then
+            match evalT model invocable i with
+            | .ok o => (s, .value o)
+            | .error m => (s, .error (.input m))                   -- `.try_into()` failed
+          else (s, .error (.notDeployed model))                    -- `workspace.evaluate_invocable(..)?`
+      | none => (s, .error (.missingParameter "input"))
+    | none => (s, .error (.missingParameter "invocable"))
+  | none => (s, .error (.missingParameter "model"))
+
 /-! ## Response bodies -/
 
 def kNamespace : List Char := ['n', 'a', 'm', 'e', 's', 'p', 'a', 'c', 'e']
